@@ -101,7 +101,10 @@ def strategy():
     cls = st.integers(0, 7 * len(DEFAULTS) * 4 * 36 - 1).map(decode_class)
     op = st.tuples(st.integers(0, 10), st.integers(0, 16 ** 4 - 1)).map(decode_op)
     return st.fixed_dictionaries({'classes': st.lists(cls, min_size=3, max_size=6),
-                                  'ops': worldops.chunked(op, 40)})
+                                  'ops': worldops.chunked(op, 40),
+                                  # scale: 0, or the length of the priority walk every "readd" turns into (the same
+                                  # type added again and again, each time with another priority)
+                                  'amp': worldops.size_amp()})
 
 
 def run_case(case):
@@ -281,6 +284,14 @@ def run_case(case):
                 do_failing_add(p_, op[2])
             else:
                 do_add(p_, op[2])
+        elif op[0] == 'readd' and case.get('amp'):
+            # priority walk: one type is added again and again (each add replaces the previous instance), with
+            # priorities fanning out from the given one: ..., p-2, p+2, p-1, p+1 - a long history of used and
+            # abandoned priorities around the ones that stay
+            base = op[2] if op[2] is not None else 0
+            for t in range(case['amp'], 0, -1):
+                do_add(new(op[1]), base + (t if t % 2 else -t))
+            flags['priority_walk'] += 1
         elif op[0] == 'readd':
             if not removed_pool:
                 do_add(new(op[1]), op[2])
